@@ -223,13 +223,15 @@ class LDAWrapper(LinearSolver):
                 # Remove all previous components that are already in the database (orthogonalize)
                 xadd = xnew[isel, i]
                 badd = (A @ xnew[..., i])[isel, ...]
+                bnrm0 = np.linalg.norm(badd)
                 for x, b in zip(x_data, b_data):
                     beta = badd @ b.conj() / (b.conj() @ b)
                     # Not in-place: the stored vectors may be complex while the new ones are real
                     badd = badd - beta * b
                     xadd = xadd - beta * x
                 bnrm = np.linalg.norm(badd)
-                if not np.isfinite(bnrm) or bnrm == 0:
+                # Linearly dependent on the stored vectors (only rounding noise is left), or zero: do not store
+                if not np.isfinite(bnrm) or bnrm <= self.tol * bnrm0:
                     continue
                 badd /= bnrm
                 xadd /= bnrm
